@@ -63,3 +63,29 @@ Proof.
   replace (Z.of_N size mod 4294967296) with (Z.of_N (size mod 4294967296)) by (rewrite N2Z.inj_mod; reflexivity).
   destruct (N.ltb_spec (size mod 4294967296) minseg); [apply Z.ltb_lt|apply Z.ltb_ge]; lia.
 Qed.
+
+(* writeRecord counts the record it appended exactly as DB.count_rec does (recordTypePut = 0,
+   recordTypeDelete = 1; counters modulo 2^32) *)
+Theorem count_rec_ok : forall (isdel : bool) (puts dels : N), (puts < 2 ^ 32)%N -> (dels < 2 ^ 32)%N ->
+  go_count_rec (if isdel then 1 else 0) (Z.of_N puts) (Z.of_N dels)
+  = (Z.of_N (if isdel then puts else u32 (puts + 1)), Z.of_N (if isdel then u32 (dels + 1) else dels)).
+Proof.
+  intros isdel puts dels Hp Hd. change (2 ^ 32)%N with 4294967296%N in *.
+  unfold go_count_rec, go_eqb, go_add, u32. cbn [wrap]. rewrite p2_32.
+  destruct isdel; cbn [Z.eqb Pos.eqb].
+  - rewrite N2Z.inj_mod, N2Z.inj_add. reflexivity.
+  - rewrite N2Z.inj_mod, N2Z.inj_add. reflexivity.
+Qed.
+
+(* recovery rebuilds the counters of a segment as DB.replay_rec does: a put record counts one put;
+   a delete record counts one delete record and its own length as dead bytes -- unconditionally *)
+Theorem recover_counters_ok : forall puts dels dbytes rlen : N,
+  (puts < 2 ^ 32)%N -> (dels < 2 ^ 32)%N -> (dbytes < 2 ^ 32)%N -> (rlen < 2 ^ 62)%N ->
+  go_recover_put (Z.of_N puts) = Z.of_N (u32 (puts + 1)) /\
+  go_recover_del (Z.of_N dels) (Z.of_N dbytes) (Z.of_N rlen)
+  = (Z.of_N (u32 (dels + 1)), Z.of_N (u32 (dbytes + u32 rlen))).
+Proof.
+  intros puts dels dbytes rlen Hp Hd Hb Hr. change (2 ^ 32)%N with 4294967296%N in *.
+  unfold go_recover_put, go_recover_del, go_add, go_conv, u32. cbn [wrap]. rewrite p2_32.
+  rewrite !N2Z.inj_mod, !N2Z.inj_add, !N2Z.inj_mod. split; reflexivity.
+Qed.
